@@ -176,15 +176,17 @@ type sTable struct {
 }
 
 type sEnv struct {
-	dir    string
-	cfg    sIndexCfg
-	db     storage.TSDB[*tsTable, option]
-	stm    *stream
-	repo   *schemaRepo
-	wcb    *writeCallback
-	tables []*sTable
-	mu     sync.Mutex
-	msgID  uint64
+	dir     string
+	cfg     sIndexCfg
+	db      storage.TSDB[*tsTable, option]
+	stm     *stream
+	repo    *schemaRepo
+	wcb     *writeCallback
+	tables  []*sTable
+	creator storage.TSTableCreator[*tsTable, option]
+	fake    *sFakeRepo
+	mu      sync.Mutex
+	msgID   uint64
 }
 
 func newSEnv(cfg sIndexCfg) (*sEnv, error) {
@@ -209,8 +211,26 @@ func newSEnv(cfg sIndexCfg) (*sEnv, error) {
 		e.mu.Unlock()
 		return tst, nil
 	}
+	e.creator = creator
+	if err := e.openDB(); err != nil {
+		os.RemoveAll(dir)
+		return nil, err
+	}
+	l := logger.GetLogger("verif-stream")
+	e.stm = &stream{schema: sSchema(), l: l, pm: protector.Nop{}}
+	e.stm.parseSpec()
+	e.stm.OnIndexUpdate(cfg.rules())
+	e.stm.tsdb.Store(e.db)
+	e.fake = &sFakeRepo{stm: e.stm, db: e.db}
+	e.repo = &schemaRepo{Repository: e.fake, l: l, idGen: idgen.NewGenerator("verif", l), path: dir}
+	e.stm.schemaRepo = e.repo
+	e.wcb = &writeCallback{l: l, schemaRepo: e.repo, maxDiskUsagePercent: 100}
+	return e, nil
+}
+
+func (e *sEnv) openDB() error {
 	opts := storage.TSDBOpts[*tsTable, option]{
-		ShardNum: 1, Location: filepath.Join(dir, "db"), TSTableCreator: creator,
+		ShardNum: 1, Location: filepath.Join(e.dir, "db"), TSTableCreator: e.creator,
 		SegmentInterval: storage.IntervalRule{Unit: storage.DAY, Num: 1}, TTL: storage.IntervalRule{Unit: storage.DAY, Num: 3650},
 		DisableRetention: true, DisableRotation: true, SeriesIndexFlushTimeoutSeconds: 1,
 		Option: option{mergePolicy: newDefaultMergePolicyForTesting(), protector: protector.Nop{}, elementIndexFlushTimeout: time.Second},
@@ -220,19 +240,28 @@ func newSEnv(cfg sIndexCfg) (*sEnv, error) {
 		return p
 	}), opts, nil, sGroup)
 	if err != nil {
-		os.RemoveAll(dir)
-		return nil, err
+		return err
 	}
 	e.db = db
-	l := logger.GetLogger("verif-stream")
-	e.stm = &stream{schema: sSchema(), l: l, pm: protector.Nop{}}
-	e.stm.parseSpec()
-	e.stm.OnIndexUpdate(cfg.rules())
-	e.stm.tsdb.Store(db)
-	e.repo = &schemaRepo{Repository: &sFakeRepo{stm: e.stm, db: db}, l: l, idGen: idgen.NewGenerator("verif", l), path: dir}
-	e.stm.schemaRepo = e.repo
-	e.wcb = &writeCallback{l: l, schemaRepo: e.repo, maxDiskUsagePercent: 100}
-	return e, nil
+	return nil
+}
+
+// reopen flushes every memory part (a graceful shutdown persists them), closes the database and opens
+// it again from the same directory.
+func (e *sEnv) reopen() error {
+	e.flushAll()
+	if err := e.db.Close(); err != nil {
+		return err
+	}
+	e.mu.Lock()
+	e.tables = nil
+	e.mu.Unlock()
+	if err := e.openDB(); err != nil {
+		return err
+	}
+	e.stm.tsdb.Store(e.db)
+	e.fake.db = e.db
+	return nil
 }
 
 func (e *sEnv) close() {
